@@ -164,8 +164,17 @@ Definition desymbolize (refs : list nat) (syms : list str) : option labels :=
 (* ---------- requests ---------- *)
 (* A histogram is an opaque payload: kind (float or integer), identity, and the result of
    histogram.Validate on it (oracle, supplied by the harness per histogram). *)
-Record hist := mkH { h_float : bool; h_id : Z; h_valid : bool }.
-Definition hist_eqb (a b : hist) : bool := Bool.eqb (h_float a) (h_float b) && (h_id a =? h_id b).
+(* h_schema is the schema field; h_valid is Validate() of the histogram as the storage receives it
+   (after remoteWriteAppender's resolution reduction, if any); h_redok: ReduceResolution(8) returns
+   nil (oracle, meaningful for schemas 9..52 only). *)
+Record hist := mkH { h_float : bool; h_id : Z; h_valid : bool; h_schema : Z; h_redok : bool }.
+Definition hist_eqb (a b : hist) : bool :=
+  Bool.eqb (h_float a) (h_float b) && (h_id a =? h_id b) && (h_schema a =? h_schema b).
+(* remoteWriteAppender.AppendHistogram: IsExponentialSchemaReserved(s) && s > ExponentialSchemaMax *)
+Definition needs_reduce (h : hist) : bool := (-9 <=? h_schema h) && (h_schema h <=? 52) && (8 <? h_schema h).
+(* the histogram the storage receives *)
+Definition reduced (h : hist) : hist :=
+  if needs_reduce h then mkH (h_float h) (h_id h) (h_valid h) 8 (h_redok h) else h.
 
 Record exemplar := mkEx { ex_labels : labels; ex_t : Z; ex_v : Z }.
 Definition ex_eqb (a b : exemplar) : bool :=
@@ -219,7 +228,9 @@ Variable maxT : Z.                   (* now + 10 minutes *)
 Definition rw_append (st : St) (l : labels) (t v : Z) : St * outcome :=
   if maxT <? t then (st, OSoft) else a_append A st l t v.
 Definition rw_hist (st : St) (l : labels) (t : Z) (h : hist) : St * outcome :=
-  if maxT <? t then (st, OSoft) else a_hist A st l t h.
+  if maxT <? t then (st, OSoft)
+  else if needs_reduce h && negb (h_redok h) then (st, OHistInvalid)   (* ReduceResolution failed: a histogram.Error *)
+  else a_hist A st l t (reduced h).
 Definition rw_ex (st : St) (l : labels) (e : exemplar) : St * outcome :=
   if maxT <? ex_t e then (st, OOther) else a_ex A st l e.
 
@@ -246,7 +257,7 @@ Fixpoint v2_hists (l : labels) (hs : list (Z * hist)) (a : acc) : acc + St :=
   | (t, h) :: r =>
     let '(st, o) := rw_hist (ac_st a) l t h in
     match o with
-    | OOk => v2_hists l r (mkAcc st (ac_s a) (ac_h a + 1) (ac_e a) (ac_bad a) (EvH l t h :: ac_tr a))
+    | OOk => v2_hists l r (mkAcc st (ac_s a) (ac_h a + 1) (ac_e a) (ac_bad a) (EvH l t (reduced h) :: ac_tr a))
     | OSoft | OHistInvalid => v2_hists l r (bad a st)
     | _ => inr st
     end
@@ -327,7 +338,7 @@ Fixpoint v1_hists (l : labels) (hs : list (Z * hist)) (st : St) (tr : list event
   | (t, h) :: r =>
     let '(st', o) := rw_hist st l t h in
     match o with
-    | OOk => v1_hists l r st' (EvH l t h :: tr)
+    | OOk => v1_hists l r st' (EvH l t (reduced h) :: tr)
     | _ => inr (st', o)
     end
   end.
@@ -480,7 +491,7 @@ Definition head_append_sample (a0 : happ) (l : labels) (t : Z) (p : payload) : h
   let a := ensure_init a0 t in
   if t <? minvalid a then (a, OSoft)                                  (* ErrOutOfBounds, fail fast *)
   else match p with
-  | PH (mkH _ _ false) => (a, OHistInvalid)                           (* h.Validate() *)
+  | PH (mkH _ _ false _ _) => (a, OHistInvalid)                           (* h.Validate() *)
   | _ =>
     let '(h, s) := get_or_create (ha_head a) (without_empty l) in
     let a' := mkHA h (ha_minvalid a) (ha_pending a) in
